@@ -259,6 +259,8 @@ class G:
                 dedicated_to = None
         k = r.randrange(6)
         member = self.ch(OTHER) if target_named and not self.pr("idx_rename", 0.15) else str(r.randrange(0, max(1, nfields)))
+        if target_named and self.pr("kw_names", 0.0):
+            member = self.ch(["dyn", "try", "async", "await"])   # reserved since the 2018 edition: identifiers for syn 1 only
         fall = name in UNTRY
         if self.pr("lit_args", 0.03):
             body = self.ch(ACTIONS_LITS) + (", " + self.ch(ACTIONS_TILDE[:4]) if self.pr("x", 0.3) else "")
@@ -744,7 +746,7 @@ class G:
 BASE = {}
 PROFILES = {
     "struct-flat": {"max_fields": 4, "hints": 0.5, "member_instr": 0.5, "ghost_field": 0.15, "multi_cpart": 0.25, "fallible": 0.35,
-                    "as_type": 0.08, "ghosts": 0.1, "update": 0.08, "tuple_cpart": 0.08, "dedicated": 0.3},
+                    "as_type": 0.08, "ghosts": 0.1, "update": 0.08, "tuple_cpart": 0.08, "dedicated": 0.3, "kw_names": 0.02},
     "traits": {"max_fields": 2, "multi_instr": 0.8, "multi_cpart": 0.5, "fallible": 0.5, "generic_cpart": 0.3, "odd_cpart": 0.3, "odd_err": 0.5,
                "tuple_cpart": 0.1, "member_instr": 0.05, "shuffle_type_attrs": 0.8, "hints": 0.2},
     "member-instrs": {"lit_args": 0.08, "min_fields": 1, "max_fields": 2, "member_instr": 0.85, "member_try": 0.4, "dedicated": 0.45, "multi_cpart": 0.7, "multi_instr": 0.7,
